@@ -573,6 +573,12 @@ func c16Run(scn *c16Scn) (c16Obs, []Mon) {
 	obs := c16Obs{Steps: []c16StepObs{}}
 	var mons []Mon
 	established := map[string]bool{} // keys established by a revision whose package owner reference resolves
+	// released[u]: revision u was last reconciled as INACTIVE and that reconcile succeeded; the
+	// value is what it could legitimately have controlled: the objects of its package and
+	// whatever its status.objectRefs listed. Until u is reconciled as active again it must be
+	// the controller of none of these ("deactivation gives up control").
+	released := map[int]map[string]bool{}
+	reported := map[string]bool{}
 	for i := range scn.Steps {
 		s := &scn.Steps[i]
 		before := c16Snapshot(st)
@@ -586,6 +592,67 @@ func c16Run(scn *c16Scn) (c16Obs, []Mon) {
 			delete(established, a.Key)
 		}
 		before = c16ApplyActs(before, applied)
+		if s.Op == "reconcile" {
+			u := s.Parent.UID
+			// status.objectRefs is only ever replaced by a successful Establish: a reconcile that
+			// ends in an error (or a crash) must not lose an entry - ReleaseObjects and the
+			// inactive shortcut of the reconciler trust that list to be complete
+			if so.Result != "ok" {
+				refsAfter := c16StatusRefs(st, u)
+				for _, rb := range refsBefore {
+					found := false
+					for _, ra := range refsAfter {
+						if ra == rb {
+							found = true
+						}
+					}
+					if !found {
+						mons = append(mons, Mon{Sig: "C16:object-refs-shrunk-on-error", Why: fmt.Sprintf("step %d: reconcile of revision %d ended with %q but status.objectRefs lost %s (before %s, after %s)", i, u, so.Result, rb.Key, mustJSON(refsBefore), mustJSON(refsAfter))})
+						break
+					}
+				}
+			}
+			switch {
+			case s.Control:
+				delete(released, u)
+			case so.Result == "ok":
+				keys := map[string]bool{}
+				for _, d := range s.Objs {
+					keys[d.Key] = true
+				}
+				for _, rb := range refsBefore {
+					if rb.Kinded {
+						keys[rb.Key] = true
+					}
+				}
+				released[u] = keys
+			}
+		}
+		for _, a := range applied {
+			// a third party that writes a controller reference naming a released revision: not the revision's doing
+			if a.Act == "put" {
+				for _, r := range a.Owners {
+					if r.Ctrl == "true" && released[r.UID] != nil {
+						delete(released[r.UID], a.Key)
+					}
+				}
+			}
+		}
+		// state-based, at the end of every step: a revision that was released successfully controls nothing
+		for _, rv := range scn.Revs {
+			u, keys := rv.UID, released[rv.UID]
+			for _, o := range so.Store {
+				if !keys[o.Key] {
+					continue
+				}
+				if r := c16HasUID(&o, u); r != nil && r.Ctrl == "true" {
+					if sig := fmt.Sprintf("%d/%s", u, o.Key); !reported[sig] {
+						reported[sig] = true
+						mons = append(mons, Mon{Sig: "C16:inactive-still-controls", Why: fmt.Sprintf("after step %d: revision %d is inactive and its last reconcile (ReleaseObjects) succeeded, but it is still the controller of %s; its status.objectRefs: %s", i, u, o.Key, mustJSON(c16StatusRefs(st, u)))})
+					}
+				}
+			}
+		}
 		if pkg, ok := c16PkgRef(s.Parent); ok && pkg.UID != s.Parent.UID && !releasing {
 			for _, a := range so.Store {
 				b := c16Find(before, a.Key)
@@ -1328,8 +1395,100 @@ func c16GenHistory(r *Rng) (c16Scn, string) {
 	return scn, cls
 }
 
+// c16GenDeactivate: the upgrade of a HEALTHY revision that has trouble on the way. Revision 10
+// is active and healthy (status.objectRefs lists its whole package, kinded: either seeded that
+// way or reached by two clean reconciles), then one or two reconciles of it pass validation and
+// hit an API error at one REAL write (or, less often, some other fault); then the package manager
+// deactivates it and activates revision 11 of the same package (same objects, new content); the
+// two are reconciled in either order, the new one once more at the end. status.objectRefs must
+// survive the failed reconciles, or ReleaseObjects does not release what it no longer lists.
+func c16GenDeactivate(r *Rng) (c16Scn, string) {
+	scn := c16Scn{Store: []c16Obj{}, Revs: []c16RevState{}, Steps: []c16Step{}}
+	_, _, pkgName := c16OwnerIdent(1)
+	par := func(u int) c16Parent {
+		return c16Parent{UID: u, Label: pkgName, Owners: []c16PRef{{Name: pkgName, UID: 1, Ctrl: "true", Block: "true"}}}
+	}
+	n := r.Range(2, 4)
+	perm := r.Perm(len(c16HKeys))
+	var old, nw []c16Des
+	for i := 0; i < n; i++ {
+		old = append(old, c16Des{Key: c16HKeys[perm[i]], Body: r.Range(1, 3)})
+		nw = append(nw, c16Des{Key: c16HKeys[perm[i]], Body: r.Range(1, 3)})
+	}
+	if r.Chance(1, 4) {
+		nw = append(nw, c16Des{Key: c16HKeys[perm[n]], Body: r.Range(1, 3)}) // the new revision adds an object
+	}
+	step := func(u int, active bool) c16Step {
+		s := c16NewStep("reconcile", par(u))
+		s.Control = active
+		if u == 10 {
+			s.Objs = append(s.Objs, old...)
+		} else {
+			s.Objs = append(s.Objs, nw...)
+		}
+		s.Conc = Pick(r, []int{1, 1, 1, 2})
+		return s
+	}
+	rev10 := c16RevState{UID: 10, Refs: []c16XRef{}}
+	start := "seeded"
+	if r.Bool() {
+		for _, d := range old {
+			scn.Store = append(scn.Store, c16Obj{Key: d.Key, Body: d.Body, Owners: []c16Ref{{10, "true", "true"}, {1, "false", "true"}}})
+			rev10.Refs = append(rev10.Refs, c16XRef{Key: d.Key, Kinded: true})
+		}
+		sort.Slice(scn.Store, func(i, j int) bool { return scn.Store[i].Key < scn.Store[j].Key })
+	} else {
+		start = "installed"
+		// the first reconcile creates (references without a kind), the second one updates (kinded)
+		scn.Steps = append(scn.Steps, step(10, true), step(10, true))
+	}
+	scn.Revs = append(scn.Revs, rev10, c16RevState{UID: 11, Refs: []c16XRef{}})
+	trouble := "real-fail"
+	for k, m := 0, r.Range(1, 2); k < m; k++ {
+		s := step(10, true)
+		s.Conc = 1
+		switch r.Intn(8) {
+		case 0:
+			s.Faults = c16GenFaults(r, n, []string{"get", "dry", "real"}, true)
+			trouble = "other-fault"
+		case 1:
+			s.Faults = []c16Fault{{I: r.Intn(n), Phase: "real", Out: Pick(r, []string{"conflict", "crashBefore", "crashAfter"})}}
+			trouble = "other-fault"
+		default:
+			// validation passes, one real write is answered with a plain API error
+			s.Faults = []c16Fault{{I: r.Intn(n), Phase: "real", Out: "fail"}}
+		}
+		scn.Steps = append(scn.Steps, s)
+	}
+	healed := false
+	if r.Chance(1, 5) {
+		scn.Steps = append(scn.Steps, step(10, true)) // a clean retry before the upgrade
+		healed = true
+	}
+	// the package manager flips the desired states; the reconciles arrive in either order
+	if r.Bool() {
+		scn.Steps = append(scn.Steps, step(11, true))
+	}
+	scn.Steps = append(scn.Steps, step(10, false))
+	if r.Chance(1, 3) {
+		scn.Steps = append(scn.Steps, step(10, false))
+	}
+	scn.Steps = append(scn.Steps, step(11, true))
+	if r.Chance(1, 3) {
+		scn.Steps = append(scn.Steps, step(10, false), step(11, true))
+	}
+	cls := fmt.Sprintf("hist/deactivate-after-trouble/%s/%s", start, trouble)
+	if healed {
+		cls += "/healed"
+	}
+	return scn, cls
+}
+
 func c16Gen(r *Rng) (c16Scn, string) {
 	if r.Chance(1, 3) {
+		if r.Chance(1, 4) {
+			return c16GenDeactivate(r)
+		}
 		return c16GenHistory(r)
 	}
 	scn := c16Scn{Store: []c16Obj{}, Revs: []c16RevState{}, Steps: []c16Step{}}
